@@ -32,6 +32,8 @@ type Cfg struct {
 	Sec       string `json:"security"`  // plain | srtp | srtp-mki
 	// Only, when set, restricts the job to one entry point (replay).
 	Only string `json:"only,omitempty"`
+	// Mixed: "plain-first" | "secure-first": the mixed-readers part (mixed.go) instead of the entry points
+	Mixed string `json:"mixed_readers,omitempty"`
 }
 
 type entryT struct {
@@ -554,6 +556,9 @@ func specsFor(cfg Cfg, e entryT) []writeSpec {
 
 // runWire executes every entry point of a configuration.
 func runWire(cfg Cfg) (out JobOut) {
+	if cfg.Mixed != "" {
+		return runMixedWire(cfg)
+	}
 	out = JobOut{Cfg: cfg, Accepted: map[string]int{}, Refused: map[string]int{}, MaxWire: map[string]int{}, MaxOK: map[string]int{}}
 	outcomes := map[string]bool{}
 	addVio := func(sig string, d map[string]any) {
